@@ -91,18 +91,14 @@ For all inputs; a semantic edit of one of these four bodies changes the generate
 section Translated
 open Fatchoy.Gen.C20
 
-/-- the translation of `MakeNodeID` is the model's `make` -/
+set_option linter.unusedSimpArgs false
+/-- the translation of `MakeNodeID` is the model's `make` (proved up to the order of the `|` operands and extra locals) -/
 theorem C20_tr_MakeNodeID (s : BitVec 8) (i : BitVec 16) :
     (Tr.MakeNodeID s i).toNat = make params s.toNat i.toNat := by
   have hs := s.isLt
   have hi := i.isLt
-  have h1 : s.toNat % 256 = s.toNat := Nat.mod_eq_of_lt (by omega)
-  have h2 : i.toNat % 65536 = i.toNat := Nat.mod_eq_of_lt (by omega)
-  have h3 : s.toNat * 65536 % 4294967296 = s.toNat * 65536 := by omega
-  have h4 : i.toNat % 4294967296 = i.toNat := by omega
-  have h5 : (s.toNat * 65536 ||| i.toNat) < 2 ^ 32 := Nat.or_lt_two_pow (by omega) (by omega)
-  simp [Tr.MakeNodeID, make, params, nodeServiceShift, Nat.shiftLeft_eq, h1, h2, h3, h4]
-  omega
+  rw [make_params_eq (by omega) (by omega)]
+  simp (disch := omega) [Tr.MakeNodeID, Nat.shiftLeft_eq, Nat.mod_eq_of_lt] <;> ac_rfl
 
 /-- the translation of `NodeID.Service` is the model's `service` (every 32-bit id, also client ids) -/
 theorem C20_tr_Service (n : BitVec 32) : (Tr.Service n).toNat = service params n.toNat := by
@@ -115,7 +111,7 @@ theorem C20_tr_Instance (n : BitVec 32) : (Tr.Instance n).toNat = inst n.toNat :
 /-- the translation of `NodeID.IsTypeBackend` is the model's `isBackend` -/
 theorem C20_tr_IsTypeBackend (n : BitVec 32) : Tr.IsTypeBackend n = isBackend params n.toNat := by
   rw [Bool.eq_iff_iff]
-  simp [Tr.IsTypeBackend, isBackend, params, nodeTypeShift, BitVec.toNat_eq]
+  simp [Tr.IsTypeBackend, isBackend, params, nodeTypeShift, BitVec.toNat_eq, Nat.and_comm, eq_comm (a := (0 : Nat))]
 
 /-- the property, stated on the translated code itself: every service and instance survives packing -/
 theorem C20_tr_unpack (s : BitVec 8) (i : BitVec 16) :
